@@ -171,7 +171,8 @@ func (e *Engine) VerifyFunc(fi *FuncInfo, fc *FuncContract) (rep funcReport) {
 			st.Assume(Or(Eq(t, IntLit(0)), Select(al, t)))
 		}
 		if fi.boxed[v] {
-			panic(subsetErr{"boxed parameter " + v.Name()})
+			fr.bindBoxed(st, v, t)
+			return
 		}
 		st.vars[v] = t
 	}
@@ -302,6 +303,9 @@ func (fr *Frame) checkExit(st *State, fc *FuncContract, entryLocks map[string]st
 // references that were allocated at entry).
 func (fr *Frame) checkFrame(st *State, fc *FuncContract, nret int) {
 	e := fr.e
+	if fc.Options["noframe"] != "" {
+		return
+	}
 	var keys []string
 	for k := range st.heap {
 		keys = append(keys, k)
@@ -375,6 +379,9 @@ func (fr *Frame) frameAllowed() (map[string][]*Term, map[string]bool) {
 func (fr *Frame) frameFact(st *State, k string) *Term {
 	e := fr.e
 	entry := fr.top.entry
+	if fr.top.fc != nil && fr.top.fc.Options["noframe"] != "" {
+		return nil
+	}
 	allowed, whole := fr.frameAllowed()
 	if k == "$alloc" || strings.HasPrefix(k, "box$") || strings.HasPrefix(k, "cell:") || whole[k] || fr.top.lockedKeys[k] {
 		return nil
@@ -385,7 +392,7 @@ func (fr *Frame) frameFact(st *State, k string) *Term {
 	}
 	ov, ok := entry.heap[k]
 	if !ok {
-		ov = Var("H0$"+smtIdent(strings.TrimPrefix(k, jivaMod+"/")), nv.S)
+		ov = initHeapSym(entry, k, nv.S)
 	}
 	if nv == ov || nv.String() == ov.String() {
 		return nil
